@@ -64,6 +64,7 @@ func (r *runner) genC06(seed int64, ndb, nq, depth int, only onlySet) {
 	for d := 0; d < ndb; d++ {
 		g := sqlgen.New(seed*1000003 + int64(d))
 		g.NoSubq = true
+		g.Decimals = true
 		tabs := g.Schema(3)
 		var s *eng.Session
 		for k := 0; k < nq; k++ {
@@ -84,7 +85,17 @@ func (r *runner) genC06(seed int64, ndb, nq, depth int, only onlySet) {
 				}
 				var x *Expr
 				var list []*Expr
-				if c := g.ColOf(sc, "s", "bin"); c != nil && g.R.Intn(3) == 0 {
+				if c := g.ColOf(sc, "d", ""); c != nil && g.R.Intn(2) == 0 {
+					// DECIMAL column against a static list of decimal and integer literals
+					x = c
+					for i := 0; i < n; i++ {
+						if g.R.Intn(4) == 0 {
+							list = append(list, Lit(g.IntVal(0.1)))
+						} else {
+							list = append(list, Lit(g.DecVal(0.1)))
+						}
+					}
+				} else if c := g.ColOf(sc, "s", "bin"); c != nil && g.R.Intn(3) == 0 {
 					x = c
 					for i := 0; i < n; i++ {
 						list = append(list, g.StrExpr(sc, 0, "bin"))
